@@ -207,7 +207,7 @@ def check_case(case, acc):
     for which, M, train in mats:
         if not np.array_equal(np.asarray(M.design_matrix, dtype=float), train, equal_nan=True):
             problems.setdefault(("training-unchanged", "values"), f"{f!r} ({variant}): training {which} matrix changed after evaluating new data")
-    acc.bulk(nframes - 1, "frames")
+    acc.subcases(case, nframes - 1, True, "new-frames")
     nontriv = any(t in f for t in ("center", "scale", "standardize", "bs(", "poly", "minmax", "C(", "T(", "S(", "f", "o", "g"))
     if problems:
         acc.case(case, "MISMATCH", sample=False)
